@@ -543,6 +543,6 @@ pub fn run(ctx: &mut Ctx) {
     }
     ctx.prop(&IdSetSeq);
     // thorough tier: coverage-guided op sequences (ASan + the in-process model inside the target)
-    let c = crate::campaign::Campaign { target: "fuzz_idset", sanitizer: "address", runs: 30_000, max_len: 400, jobs: 12, seeds: crate::campaign::byte_seeds(24, 400), dict: vec![] };
+    let c = crate::campaign::Campaign { target: "fuzz_idset", sanitizer: "address", runs: 12_000, max_len: 400, jobs: 12, seeds: crate::campaign::byte_seeds(24, 400), dict: vec![] };
     crate::campaign::guided(ctx, &IdSetSeq, c, |b| Some(crate::fuzzside::idset_case(b)));
 }
